@@ -28,7 +28,7 @@ PARAMS = dict(
     ncls=(3, 8), npool=(1, 4), pool_cap=5, nops=(3, 25), full_max_ops=8,
     p_force=0.45,
     kind_w=[50, 15, 12, 12, 11],
-    w=dict(create=20, add=20, remove=25, delete=4, process=3, clear=2, enable=4,
+    w=dict(create=20, add=20, remove=25, delete=4, process=3, clear=2, enable=5, probe=3,
            addproc=12, rmproc=10),
     p_auto=0.25, p_future=0.10, create_sizes=[2, 30, 40, 28],
     p_replace=0.2, p_sibs=0.6, rm_modes=[25, 60, 15],
